@@ -348,6 +348,8 @@ func (j *C15Job) checkFlags(msg any, status int, viol func(string, string, ...an
 		flag("noop", m.Noop, status == 20000)
 	case *pb.CreateSubscriptionResponse:
 		flag("noop", m.Noop, status == 20000)
+	case *pb.CreatedScheduleResponse:
+		flag("noop", m.Noop, status == 20000)
 	}
 }
 
@@ -448,22 +450,63 @@ func (j *C15Job) equivalence(f *Front, stub *StubAPI, viol func(string, string, 
 	stub.Answer = func(req *t_api.Request) (*t_api.Response, error) {
 		return nil, t_api.NewError(t_api.StatusInternalServerError, nil)
 	}
-	stub.Take()
-	var got *t_api.Request
-	if j.Proto == "grpc" {
-		f.GRPCSend(GRPCMessage(j.Base))
-	} else {
-		f.HTTP(HTTPFor(j.Base, false))
+	// the base request, and the same request addressed to ids that the HTTP path has to
+	// carry unaltered (inner, trailing and leading slashes)
+	variants := []*t_api.Request{j.Base}
+	for _, id := range []string{"a/b", "a/", "/a"} {
+		if v := withPathId(j.Base, id); v != nil {
+			variants = append(variants, v)
+		}
 	}
-	got, n := stub.Take()
-	if n != 1 || got == nil {
-		viol(fmt.Sprintf("C15:%s:%s:not-forwarded", j.Proto, kindLabel(j.Base)), "%s %s: a well-formed request reached the kernel %d times", j.Proto, kindLabel(j.Base), n)
-		return
+	for vi, base := range variants {
+		stub.Take()
+		var got *t_api.Request
+		if j.Proto == "grpc" {
+			f.GRPCSend(GRPCMessage(base))
+		} else {
+			f.HTTP(HTTPFor(base, false))
+		}
+		got, n := stub.Take()
+		label := kindLabel(j.Base)
+		if vi > 0 {
+			label += ":id-with-slash"
+		}
+		if n != 1 || got == nil {
+			viol(fmt.Sprintf("C15:%s:%s:not-forwarded", j.Proto, label), "%s %s: a well-formed request (%s) reached the kernel %d times", j.Proto, kindLabel(j.Base), normalRequest(base), n)
+			continue
+		}
+		want := normalRequest(base)
+		if g := normalRequest(got); g != want || got.Kind != base.Kind {
+			viol(fmt.Sprintf("C15:%s:%s:translated-differently", j.Proto, label), "%s %s: the kernel request differs from the logical request (so the two protocols disagree)\nwant %s\ngot  %s", j.Proto, kindLabel(j.Base), want, g)
+		}
 	}
-	want := normalRequest(j.Base)
-	if g := normalRequest(got); g != want || got.Kind != j.Base.Kind {
-		viol(fmt.Sprintf("C15:%s:%s:translated-differently", j.Proto, kindLabel(j.Base)), "%s %s: the kernel request differs from the logical request (so the two protocols disagree)\nwant %s\ngot  %s", j.Proto, kindLabel(j.Base), want, g)
+}
+
+// withPathId: a copy of the request addressed to another resource id, for the operations
+// whose id travels in the HTTP path (nil for the others).
+func withPathId(r *t_api.Request, id string) *t_api.Request {
+	c := *r
+	switch r.Kind {
+	case t_api.ReadPromise:
+		x := *r.ReadPromise
+		x.Id = id
+		c.ReadPromise = &x
+	case t_api.CompletePromise:
+		x := *r.CompletePromise
+		x.Id = id
+		c.CompletePromise = &x
+	case t_api.ReadSchedule:
+		x := *r.ReadSchedule
+		x.Id = id
+		c.ReadSchedule = &x
+	case t_api.DeleteSchedule:
+		x := *r.DeleteSchedule
+		x.Id = id
+		c.DeleteSchedule = &x
+	default:
+		return nil
 	}
+	return &c
 }
 
 func C15Jobs(tier string) []runner.Job {
